@@ -46,6 +46,29 @@ theorem explain_uses_inputs (ops : List Op) (a b : Cst) (res : Res)
 example : explainTop (run [.mergeF 1 2 3, .mergeF 4 5 6, .mergeC 1 4, .mergeC 2 5]) 3 6 =
     .ok [((1, 4), [.const 1 4]), ((2, 5), [.const 2 5]), ((3, 6), [.comb ⟨1, 2, 3⟩ ⟨4, 5, 6⟩])] := by rfl
 
+/-- The dictionary returned by `explain(a, b)` is closed for its consumer
+(`CongClosureHOL.explain.get_proofterm` looks up `explain[(a1, b1)]` and `explain[(a2, b2)]` for
+every label `(EQ_COMB, ((a1,a2),a), ((b1,b2),b))` with `a1 != b1` / `a2 != b2`, and walks each
+path from the first constant of its key): the queried pair is a key unless `a = b`; every path
+chains from the first to the second constant of its key (`Chain`, each label joining consecutive
+constants in either direction); and every application label on a returned path has an entry for
+each of its argument pairs, in exactly the orientation of the label. -/
+theorem explain_closed (ops : List Op) (a b : Cst) (res : Res)
+    (h : explainTop (run ops) a b = .ok res) :
+    (a = b ∨ ∃ p, ((a, b), p) ∈ res) ∧
+    ∀ ent ∈ res, Chain ent.2 ent.1.1 ent.1.2 ∧
+      ∀ e1 e2, Label.comb e1 e2 ∈ ent.2 →
+        (e1.a1 = e2.a1 ∨ ∃ p, ((e1.a1, e2.a1), p) ∈ res) ∧
+        (e1.a2 = e2.a2 ∨ ∃ p, ((e1.a2, e2.a2), p) ∈ res) :=
+  explainTop_closed (run_sound ops) h
+
+/- non-vacuity: after 1 = 2, f(3,1) = 4 entered before f(3,2) = 5 but f(2,3) = 7 before f(1,3) = 6 (opposite
+orders), and f(4,6) = 8, f(5,7) = 9: explaining 8 = 9 needs the pair (1, 2) in both orientations, and the
+dictionary has both entries. -/
+example : (explainTop (run [.mergeC 1 2, .mergeF 3 1 4, .mergeF 3 2 5, .mergeF 2 3 7, .mergeF 1 3 6,
+      .mergeF 4 6 8, .mergeF 5 7 9]) 8 9).toOption.map (fun r => r.map (·.1)) =
+    some [(2, 1), (5, 4), (1, 2), (7, 6), (8, 9)] := by rfl
+
 /-- `_propagate` always runs to completion within the model's fuel: after every public call
 (`add_var`, both forms of `merge`) the queue `pending` is empty. -/
 theorem pending_empty_after_merge (ops : List Op) : (run ops).pending = [] :=
